@@ -513,7 +513,7 @@ def selftest(ctx) -> None:
 
 def run(ctx) -> None:
     parallel(ctx, _sweep_shard, [(p,) for p in range(4)])
-    parallel(ctx, _hyp_shard, [(ctx.n(100, 3000),)] * 16)
+    parallel(ctx, _hyp_shard, [(ctx.n(100, 1500),)] * 16)
     ctx.exhaustive = False
 
 
